@@ -389,15 +389,21 @@ def finish (env : Env) (s : Dict) : Outcome :=
 
 structure Input where
   kwargs : Dict                           -- InsightsConfig(**kwargs)
+  posArgs : Dict := []                    -- InsightsConfig(args[0], **kwargs): the positional dict (config.py:497-498)
   files : List (Str × FileSrc)            -- what the parser finds at each path
   envVars : List (Str × Str)              -- os.environ, in order
   cli : List (Str × Option Str)           -- sys.argv[1:] as (destination, argument)
   facts : Facts
   printErrors : Bool
 
-/-- `InsightsConfig(**kwargs)` (config.py:488-502) -/
+/-- the store `__init__` builds before its own `_imply_options(); _validate_options()`: the defaults, then the
+positional dict `args[0]` when there is one (an absent one is the empty dict), then the keyword arguments -/
+def constructStore (inp : Input) : Dict :=
+  updateDict (updateDict (updateDict [] defaults) inp.posArgs) inp.kwargs
+
+/-- `InsightsConfig(*args, **kwargs)` (config.py:488-502) -/
 def construct (inp : Input) : Outcome :=
-  finish (concreteEnv inp.facts inp.printErrors none) (updateDict (updateDict [] defaults) inp.kwargs)
+  finish (concreteEnv inp.facts inp.printErrors none) (constructStore inp)
 
 def fileAt (files : List (Str × FileSrc)) (conf : Option PyVal) : FileSrc :=
   match conf with
@@ -435,6 +441,42 @@ def loadAll (inp : Input) : Outcome :=
       match preImply inp s0 cli with
       | .ok s => finish (concreteEnv inp.facts inp.printErrors (some cli)) s
       | o => o
+  | o => o
+
+/-- `_load_config_file(fname)` called directly (config.py:627-665): the parser reads `fname or self.conf`, then the same
+coercions and `_update_dict` as inside `load_all` -/
+def loadConfigFile (files : List (Str × FileSrc)) (s : Dict) (fname : PyVal) : Dict :=
+  let path : Option PyVal := if truthy fname then some fname else dget s kConf
+  updateDict s (fileDict (fileAt files path))
+
+/-- `c = InsightsConfig(...); c._load_config_file(fname)` -/
+def constructThenFile (inp : Input) (fname : PyVal) : Outcome :=
+  match construct inp with
+  | .ok s0 => .ok (loadConfigFile inp.files s0 fname)
+  | o => o
+
+/-- a SECOND `load_all()` on the object a first one returned, under the same sources: `_cli_opts` is cached
+(config.py:593-595), so both command-line passes apply the whole cached dict; file and environment are read again.
+Not modelled: a `conf` that the first load left as a bool (INSIGHTS_CONF=true/false) makes the real `read()` raise TypeError;
+the model treats it like any path at which nothing is found (the harness does not generate it, see its assumptions) -/
+def reloadAll (inp : Input) (s : Dict) (cli : Dict) : Outcome :=
+  let s1 := updateDict s cli
+  let fd := fileDict (fileAt inp.files (dget s1 kConf))
+  let s2 := updateDict s1 fd
+  match envDict inp.envVars with
+  | none => .valueError "ERROR: Invalid value specified for ".toList
+  | some ed =>
+    finish (concreteEnv inp.facts inp.printErrors (some cli)) (updateDict (updateDict s2 ed) cli)
+
+/-- `c = InsightsConfig(...); c.load_all(); c.load_all()` -/
+def loadAllTwice (inp : Input) : Outcome :=
+  match loadAll inp with
+  | .ok s =>
+    match cliDict inp.cli with
+    | .dict cli0 =>
+      -- an EMPTY cached dict is falsy: the command line is parsed again (same result)
+      reloadAll inp s (dofPairs cli0)
+    | _ => .bad
   | o => o
 
 end IV.ClientLoad
